@@ -137,4 +137,4 @@ def run(chk):
     n = (400 if tier == 'quick' else 6000)
     per = max(1, n // (core.NPROC * (1 if tier == 'quick' else 8)))
     wjobs = [(chk.seed * 1000 + i, pid, per) for i in range(n // per)]
-    return core.stream(small, [(row, pid, tier, i) for i, row in enumerate(rows)], wide, wjobs, tier, step=200)
+    return core.stream(small, [(row, pid, tier, i) for i, row in enumerate(rows)], wide, wjobs, tier, step=80)
